@@ -2695,29 +2695,33 @@ impl Term<Name> {
                     .map(|(_, term)| term.pierce_no_inlines_ref())
                     .collect_vec();
                 if applies.len() == func.arity() && func.is_error_safe(&args) {
-                    changed = true;
-                    let applied_term =
-                        applies
-                            .into_iter()
-                            .fold(Term::Builtin(*func), |acc, (arg_id, arg)| {
-                                context.inlined_apply_ids.push(arg_id);
-                                acc.apply(arg.pierce_no_inlines_ref().clone())
-                            });
+                    let applied_term = applies
+                        .iter()
+                        .fold(Term::Builtin(*func), |acc, (_, arg)| {
+                            acc.apply(arg.pierce_no_inlines_ref().clone())
+                        });
 
-                    // The check above is to make sure the program is error safe
-                    let eval_term: Term<Name> = Program {
+                    // `is_error_safe` only approximates the builtin's domain (sizes,
+                    // shift amounts, ... can still be rejected): when the evaluation
+                    // fails, the application is left in place to fail at run time.
+                    let eval_term: Option<Term<Name>> = Program {
                         version: (1, 0, 0),
                         term: applied_term,
                     }
                     .to_named_debruijn()
-                    .unwrap()
-                    .eval(ExBudget::default())
-                    .result()
-                    .unwrap()
-                    .try_into()
-                    .unwrap();
+                    .ok()
+                    .and_then(|program| program.eval(ExBudget::default()).result().ok())
+                    .and_then(|term| term.try_into().ok());
 
-                    *self = eval_term;
+                    if let Some(eval_term) = eval_term {
+                        changed = true;
+
+                        for (arg_id, _) in applies {
+                            context.inlined_apply_ids.push(arg_id);
+                        }
+
+                        *self = eval_term;
+                    }
                 }
             }
             Term::Constr { .. } => todo!(),
